@@ -230,8 +230,9 @@ def load_one(lit: LineIterator, norm_threshold: float = 1e-4) -> dict:
 
     nelec = atnums.sum() - charge
     if coeffsb is None:
+        # Occupation numbers are printed with seven decimals, so their sum is less precise.
         # restricted closed-shell or open-shell
-        if abs(occsa.sum() - nelec) > 1e-7:
+        if abs(occsa.sum() - nelec) > 1e-5:
             raise LoadError("Occupation numbers are inconsistent with number of electrons", lit)
         mo = MolecularOrbitals(
             "restricted", coeffsa.shape[1], coeffsa.shape[1], occsa, coeffsa, energiesa, irrepsa
@@ -254,7 +255,7 @@ def load_one(lit: LineIterator, norm_threshold: float = 1e-4) -> dict:
                 ),
                 stacklevel=2,
             )
-        if abs(nelec - (nalpha + nbeta)) > 1e-7:
+        if abs(nelec - (nalpha + nbeta)) > 1e-5:
             raise LoadError("Occupation numbers are inconsistent with number of electrons", lit)
         mo = MolecularOrbitals(
             "unrestricted",
